@@ -1,7 +1,412 @@
-(* C06 - proofs about the replay model *)
-From Coq Require Import NArith List Bool Lia.
+(* C06 - proofs about the replay model: one record = one line in merge order; the array/stack_count
+   automaton of fstack.c refines the reference semantics [srun]; per-task exactness on forests. *)
+From Coq Require Import NArith List Bool Lia Arith.
+Require Import ZifyBool ZifyN ZifyNat.
 Import ListNotations.
-Require Import UV.C06.Model.
+Require Import UV.C06.Model UV.C06.MergeProofs.
 Local Open Scope N_scope.
 
-Lemma placeholder : True. Proof. exact I. Qed.
+(* ------------------------------------------------------------------ arithmetic *)
+Lemma sub64_exact a b : b <= a -> a < W64 -> sub64 a b = a - b.
+Proof.
+  intros H1 H2. unfold sub64, W64 in *.
+  replace (a + 18446744073709551616 - b) with ((a - b) + 1 * 18446744073709551616) by lia.
+  rewrite N.mod_add by lia. apply N.mod_small. lia.
+Qed.
+
+(* ------------------------------------------------------------------ one record without folding *)
+Definition warn_of (g1 : gstate) (ts0 : tstate) (r : rec) : list line :=
+  if negb (r_time r =? 0) && (r_time r <? g_prev g1) then [mkline KWarn 0 (t_dd ts0 + 1) 0 0 0 0 0 0] else [].
+
+Definition step (c : cfg) (tasks : list task) (g : gstate) (i : nat) (r : rec) : list line * gstate :=
+  let g1 := consume tasks g i r in
+  let ts0 := tget g1 i in
+  let warn := warn_of g1 ts0 r in
+  let g2 := mkg (g_tasks g1) (g_first g1) (if r_time r =? 0 then g_prev g1 else r_time r) in
+  let ts1 := stamp ts0 (r_time r) in
+  match r_type r with
+  | ENTRY =>
+      let ts2 := if is_fork c (r_addr r) then set_fork ts1 (t_dd ts1 + 1) else ts1 in
+      let depth := t_dd ts2 in
+      let idx := t_sc ts2 - 1 in
+      (warn ++ [mk KOpen i ts2 (g_first g2) depth (r_addr r) 0 (f_addr (fget (t_stack ts2) idx))],
+       tset g2 i (set_dd ts2 (depth + 1)))
+  | EXIT =>
+      let f := fget (t_stack ts1) (t_sc ts1) in
+      let depth := N.pred (t_dd ts1) in
+      let ts2 := set_dd ts1 depth in
+      (warn ++ [mk KClose i ts2 (g_first g2) depth (r_addr r) (f_time f) (f_addr f)], tset g2 i ts2)
+  end.
+
+Lemma run_nofold_cons c tasks i r tl g : c_fold c = false ->
+  run c tasks ((i, r) :: tl) g =
+  let '(ls, g') := step c tasks g i r in
+  let '(out, g'') := run c tasks tl g' in (ls ++ out, g'').
+Proof.
+  intros Hf. cbn [run]. unfold step, warn_of. rewrite Hf.
+  destruct (r_type r).
+  - destruct tl as [|[j r'] tl']; cbn [andb];
+      match goal with |- context [run c tasks ?l ?g] => destruct (run c tasks l g) as [out g''] end;
+      rewrite <- app_assoc; reflexivity.
+  - match goal with |- context [run c tasks ?l ?g] => destruct (run c tasks l g) as [out g''] end.
+    rewrite <- app_assoc. reflexivity.
+Qed.
+
+(* ------------------------------------------------------------------ lines follow the merge order *)
+Definition not_warn (l : line) : bool := match l_kind l with KWarn => false | _ => true end.
+Definition tag_of_line (l : line) : nat * N := (l_task l, l_time l).
+Definition tag_of_rec (p : nat * rec) : nat * N := (fst p, r_time (snd p)).
+
+Lemma filter_warn_app ws l : Forall (fun w => not_warn w = false) ws -> not_warn l = true ->
+  filter not_warn (ws ++ [l]) = [l].
+Proof.
+  intros Hw Hl. induction Hw as [|w ws Hw1 _ IH]; cbn; [rewrite Hl; reflexivity|]. rewrite Hw1. exact IH.
+Qed.
+
+Lemma warn_of_warn g1 ts0 r : Forall (fun w => not_warn w = false) (warn_of g1 ts0 r).
+Proof. unfold warn_of. destruct (_ && _); repeat constructor. Qed.
+
+Lemma step_tags c tasks g i r :
+  map tag_of_line (filter not_warn (fst (step c tasks g i r))) = [(i, r_time r)].
+Proof.
+  unfold step. set (g1 := consume tasks g i r).
+  destruct (r_type r); cbn [fst]; rewrite filter_warn_app by (auto using warn_of_warn); cbn [map];
+    unfold tag_of_line, mk; cbn [l_task l_time]; try destruct (is_fork c (r_addr r)); reflexivity.
+Qed.
+
+Lemma run_nofold_tags c tasks : c_fold c = false -> forall l g,
+  map tag_of_line (filter not_warn (fst (run c tasks l g))) = map tag_of_rec l.
+Proof.
+  intros Hf. induction l as [|[i r] tl IH]; intros g; [reflexivity|].
+  rewrite (run_nofold_cons _ _ _ _ _ _ Hf).
+  pose proof (step_tags c tasks g i r) as Hs.
+  destruct (step c tasks g i r) as [ls g'].
+  specialize (IH g'). destruct (run c tasks tl g') as [out g''].
+  cbn [fst] in *. rewrite filter_app, map_app, Hs, IH. reflexivity.
+Qed.
+
+(* ------------------------------------------------------------------ func_stack[] vs a stack of entry times *)
+Definition valid_frames (L : list frame) : Prop := Forall (fun f => f_valid f = true) L.
+(* the slots below stack_count hold the entry times of the open calls, outermost first *)
+Definition live (st : list frame) (stk : list N) : Prop :=
+  exists L rest, st = L ++ rest /\ map f_time L = rev stk /\ valid_frames L.
+
+Lemma live_length st stk L rest : st = L ++ rest -> map f_time L = rev stk -> length L = length stk.
+Proof. intros _ H. rewrite <- (map_length f_time), H, rev_length. reflexivity. Qed.
+
+Lemma upd_app : forall (L rest : list frame) x, upd (L ++ rest) (length L) x = L ++ x :: tl rest.
+Proof.
+  induction L as [|h L IH]; intros rest x; cbn.
+  - destruct rest; reflexivity.
+  - rewrite IH. reflexivity.
+Qed.
+
+Lemma rev_repeat {A} (x : A) n : rev (repeat x n) = repeat x n.
+Proof.
+  induction n as [|n IH]; [reflexivity|]. cbn [repeat rev]. rewrite IH.
+  clear IH. induction n as [|n IH]; [reflexivity|]. cbn. rewrite IH. reflexivity.
+Qed.
+
+Lemma init_frames_live : forall k st t, exists L rest,
+  init_frames st k t = L ++ rest /\ map f_time L = repeat t k /\ valid_frames L.
+Proof.
+  induction k as [|k IH]; intros st t.
+  - exists [], st. repeat split; constructor.
+  - cbn [init_frames]. destruct st as [|f r].
+    + destruct (IH [] t) as (L & rest & E & Hm & Hv). rewrite E.
+      exists (mkframe 0 t true :: L), rest. repeat split; [cbn; rewrite Hm; reflexivity|constructor; [reflexivity|exact Hv]].
+    + destruct (IH r t) as (L & rest & E & Hm & Hv). rewrite E.
+      exists (mkframe (f_addr f) t true :: L), rest. repeat split; [cbn; rewrite Hm; reflexivity|constructor; [reflexivity|exact Hv]].
+Qed.
+
+Definition rel (ts : tstate) (ss : sstate) : Prop :=
+  t_set ts = s_set ss /\ t_dd ts = s_dd ss /\ t_fork_dd ts = s_fork ss /\
+  (s_set ss = true -> t_sc ts = N.of_nat (length (s_stk ss)) /\ live (t_stack ts) (s_stk ss)).
+
+Lemma rel0 : rel tstate0 sstate0.
+Proof. repeat split; cbn in *; discriminate. Qed.
+
+Lemma setup_rel inh ts ss r : rel ts ss ->
+  let ts' := first_setup inh ts r in
+  let ss' := s_first inh ss r in
+  t_set ts' = true /\ s_set ss' = true /\ t_dd ts' = s_dd ss' /\ t_fork_dd ts' = s_fork ss' /\
+  t_sc ts' = N.of_nat (length (s_stk ss')) /\ live (t_stack ts') (s_stk ss') /\
+  t_ts ts' = t_ts ts /\ t_ts_last ts' = t_ts_last ts.
+Proof.
+  intros (Hs & Hd & Hf & Hl). unfold first_setup, s_first. rewrite Hs.
+  destruct (s_set ss) eqn:E.
+  - destruct (Hl eq_refl) as [Hsc Hlive]. repeat split; auto; congruence.
+  - cbn [t_set s_set t_dd s_dd t_fork_dd s_fork t_sc s_stk t_stack t_ts t_ts_last].
+    rewrite Hd, Hf. fold (first_depth r).
+    repeat split; auto.
+    + rewrite repeat_length. lia.
+    + destruct (init_frames_live (N.to_nat (first_depth r)) (t_stack ts) (r_time r)) as (L & rest & E1 & Hm & Hv).
+      exists L, rest. rewrite rev_repeat. auto.
+Qed.
+
+Lemma entry_rel inh ts ss r : rel ts ss -> r_type r = ENTRY ->
+  let ts' := consume_task inh ts r in
+  let ss' := s_first inh ss r in
+  t_set ts' = true /\ t_dd ts' = s_dd ss' /\ t_fork_dd ts' = s_fork ss' /\
+  t_sc ts' = N.of_nat (length (r_time r :: s_stk ss')) /\ live (t_stack ts') (r_time r :: s_stk ss').
+Proof.
+  intros Hrel Hty. destruct (setup_rel inh ts ss r Hrel) as (H1 & H2 & H3 & H4 & H5 & H6 & _).
+  unfold consume_task, count, account. rewrite Hty.
+  set (ts1 := first_setup inh ts r) in *. set (ss1 := s_first inh ss r) in *.
+  cbn [t_set t_dd t_fork_dd t_sc t_stack].
+  repeat split; auto.
+  - rewrite H5. cbn [length]. lia.
+  - destruct H6 as (L & rest & E & Hm & Hv).
+    pose proof (live_length _ _ _ _ E Hm) as HL.
+    unfold fset. rewrite H5, Nat2N.id, <- HL, E, upd_app.
+    exists (L ++ [mkframe (r_addr r) (r_time r) true]), (tl rest).
+    split; [rewrite <- app_assoc; reflexivity|]. split.
+    + rewrite map_app, Hm. reflexivity.
+    + apply Forall_app. split; [exact Hv|constructor; [reflexivity|constructor]].
+Qed.
+
+Lemma exit_rel inh ts ss r t0 stk' : rel ts ss -> r_type r = EXIT -> s_stk (s_first inh ss r) = t0 :: stk' ->
+  let ts' := consume_task inh ts r in
+  let ss' := s_first inh ss r in
+  t_set ts' = true /\ t_dd ts' = s_dd ss' /\ t_fork_dd ts' = s_fork ss' /\
+  t_sc ts' = N.of_nat (length stk') /\ live (t_stack ts') stk' /\
+  f_time (fget (t_stack ts') (t_sc ts')) = sub64 (r_time r) t0.
+Proof.
+  intros Hrel Hty Hstk. destruct (setup_rel inh ts ss r Hrel) as (H1 & H2 & H3 & H4 & H5 & H6 & _).
+  unfold consume_task, count, account. rewrite Hty.
+  set (ts1 := first_setup inh ts r) in *. set (ss1 := s_first inh ss r) in *.
+  rewrite Hstk in *. cbn [length] in H5.
+  destruct (t_sc ts1 =? 0) eqn:Ez; [lia|].
+  cbn [t_set t_dd t_fork_dd t_sc t_stack].
+  destruct H6 as (L & rest & E & Hm & Hv).
+  cbn [rev] in Hm. apply map_eq_app in Hm. destruct Hm as (L0 & Lf & EL & Hm0 & Hmf).
+  destruct Lf as [|f [|f2 Lf]]; cbn in Hmf; try discriminate. inversion Hmf as [Hft]. subst L.
+  assert (HL0 : length L0 = length stk') by (rewrite <- (map_length f_time), Hm0, rev_length; reflexivity).
+  assert (Hidx : N.to_nat (t_sc ts1 - 1) = length L0) by lia.
+  apply Forall_app in Hv. destruct Hv as [Hv0 Hvf]. inversion Hvf as [|? ? Hfv _]; subst.
+  assert (Hget : fget (t_stack ts1) (t_sc ts1 - 1) = f).
+  { unfold fget. rewrite Hidx, E, <- app_assoc. cbn [app]. apply nth_middle. }
+  rewrite Hget, Hfv.
+  assert (Hset : fset (t_stack ts1) (t_sc ts1 - 1) (mkframe (f_addr f) (sub64 (r_time r) (f_time f)) false)
+                 = L0 ++ mkframe (f_addr f) (sub64 (r_time r) (f_time f)) false :: rest).
+  { unfold fset. rewrite Hidx, E, <- app_assoc. cbn [app]. rewrite upd_app. reflexivity. }
+  rewrite Hset.
+  repeat split; auto.
+  - lia.
+  - exists L0, (mkframe (f_addr f) (sub64 (r_time r) (f_time f)) false :: rest). auto.
+  - unfold fget. replace (N.to_nat (N.pred (t_sc ts1))) with (length L0) by lia.
+    rewrite nth_middle. reflexivity.
+Qed.
+
+(* ------------------------------------------------------------------ task tables *)
+Lemma nth_tupd : forall l i x j d, (i < length l)%nat ->
+  nth j (tupd l i x) d = if Nat.eqb j i then x else nth j l d.
+Proof.
+  induction l as [|h t IH]; intros i x j d Hi; cbn in Hi; [lia|].
+  destruct i as [|i]; destruct j as [|j]; cbn; try reflexivity. apply IH. lia.
+Qed.
+Lemma length_tupd : forall l i x, length (tupd l i x) = length l.
+Proof. induction l as [|h t IH]; intros [|i] x; cbn; auto. Qed.
+Lemma nth_supd : forall l i x j d, (i < length l)%nat ->
+  nth j (supd l i x) d = if Nat.eqb j i then x else nth j l d.
+Proof.
+  induction l as [|h t IH]; intros i x j d Hi; cbn in Hi; [lia|].
+  destruct i as [|i]; destruct j as [|j]; cbn; try reflexivity. apply IH. lia.
+Qed.
+Lemma length_supd : forall l i x, length (supd l i x) = length l.
+Proof. induction l as [|h t IH]; intros [|i] x; cbn; auto. Qed.
+
+Definition Rel (g : gstate) (S : list sstate) : Prop :=
+  length (g_tasks g) = length S /\ forall i, rel (tget g i) (nth i S sstate0).
+
+Definition BOUND : N := 9223372036854775808.
+(* what is still to come for a task is well-formed with respect to its reference state *)
+Definition wfrem (ss : sstate) (rs : list rec) : Prop :=
+  if s_set ss
+  then exists last, wf_stream (N.of_nat (length (s_stk ss))) last rs = true /\
+                    Forall (fun t => t <= last) (s_stk ss)
+  else match rs with [] => True | r :: _ => wf_stream (first_depth r) 0 rs = true end.
+
+Lemma inherit_rel tasks g S i : Rel g S -> inherit tasks g i = s_inherit tasks S i.
+Proof.
+  intros [_ H]. unfold inherit, s_inherit. destruct (k_parent _) as [p|]; [|reflexivity].
+  destruct (H p) as (_ & _ & Hf & _). exact Hf.
+Qed.
+
+Lemma Forall_le_repeat t k last : t <= last -> Forall (fun x => x <= last) (repeat t k).
+Proof. intros. induction k; cbn; constructor; auto. Qed.
+
+(* the reference state after the first-record set-up satisfies the "set" form of wfrem *)
+Lemma wfrem_first inh ss r rest : wfrem ss (r :: rest) ->
+  exists last, wf_stream (N.of_nat (length (s_stk (s_first inh ss r)))) last (r :: rest) = true /\
+               Forall (fun t => t <= last) (s_stk (s_first inh ss r)) /\
+               (last <= r_time r /\ r_time r < BOUND).
+Proof.
+  unfold wfrem, s_first. destruct (s_set ss) eqn:E.
+  - intros (last & Hwf & Hall). exists last. repeat split; auto;
+      cbn [wf_stream] in Hwf; unfold BOUND; lia.
+  - intros Hwf. cbn [s_stk]. rewrite repeat_length, N2Nat.id.
+    exists (r_time r). cbn [wf_stream] in *. unfold BOUND.
+    repeat split; try lia.
+    apply Forall_le_repeat. lia.
+Qed.
+
+Definition is_forkb (forks : list N) (a : N) : bool := existsb (N.eqb a) forks.
+
+Lemma events_warn_app ws l : Forall (fun w => not_warn w = false) ws -> events_of (ws ++ [l]) = events_of_line l.
+Proof.
+  intros H. unfold events_of. rewrite flat_map_app. cbn [flat_map]. rewrite app_nil_r.
+  assert (E : flat_map events_of_line ws = []).
+  { induction H as [|w ws Hw _ IH]; [reflexivity|]. cbn [flat_map]. rewrite IH.
+    unfold not_warn in Hw. unfold events_of_line. destruct (l_kind w); try discriminate. reflexivity. }
+  rewrite E. reflexivity.
+Qed.
+
+(* one record: the automaton of fstack.c/replay.c emits what the reference semantics emits,
+   and the states stay related *)
+Lemma step_refines forks tasks g S i r rest tl :
+  Rel g S -> (i < length S)%nat -> wfrem (nth i S sstate0) (r :: rest) ->
+  exists ev S',
+    srun forks tasks ((i, r) :: tl) S = ev :: srun forks tasks tl S' /\
+    events_of (fst (step (mkcfg false forks) tasks g i r)) = [ev] /\
+    Rel (snd (step (mkcfg false forks) tasks g i r)) S' /\
+    wfrem (nth i S' sstate0) rest /\
+    length S' = length S /\
+    (forall j, j <> i -> nth j S' sstate0 = nth j S sstate0).
+Proof.
+  intros HR Hi Hwf.
+  pose proof HR as [Hlen Hall].
+  pose proof (inherit_rel tasks g S i HR) as Hinh.
+  destruct (wfrem_first (s_inherit tasks S i) _ _ _ Hwf) as (last & Hwf1 & Hle & Hlast & Hbound).
+  assert (Hig : (i < length (g_tasks g))%nat) by lia.
+  cbn [srun]. unfold step.
+  set (g1 := consume tasks g i r).
+  assert (Hts0 : tget g1 i = consume_task (s_inherit tasks S i) (tget g i) r).
+  { unfold g1, consume, tget. cbn [g_tasks]. rewrite nth_tupd by assumption. rewrite Nat.eqb_refl, Hinh. reflexivity. }
+  set (ss := s_first (s_inherit tasks S i) (nth i S sstate0) r) in *.
+  destruct (r_type r) eqn:Hty.
+  - (* ENTRY *)
+    destruct (entry_rel (s_inherit tasks S i) _ _ r (Hall i) Hty) as (E1 & E2 & E3 & E4 & E5).
+    fold ss in E2, E3, E4, E5. rewrite <- Hts0 in E1, E2, E3, E4, E5.
+    eexists. eexists. split; [reflexivity|].
+    cbn [fst snd]. split.
+    { rewrite events_warn_app by apply warn_of_warn. unfold events_of_line, mk. cbn [l_kind l_task l_indent l_name l_time].
+      unfold is_fork. cbn [c_forks].
+      destruct (existsb (N.eqb (r_addr r)) forks); cbn [set_fork stamp t_dd t_ts]; rewrite E2; reflexivity. }
+    split.
+    { split.
+      - unfold tset. cbn [g_tasks]. rewrite length_tupd, length_supd. unfold g1, consume. cbn [g_tasks].
+        rewrite length_tupd. exact Hlen.
+      - intros j. unfold tget, tset. cbn [g_tasks].
+        assert (Hg1 : (i < length (g_tasks g1))%nat) by (unfold g1, consume; cbn [g_tasks]; rewrite length_tupd; lia).
+        rewrite nth_tupd by assumption. rewrite nth_supd by assumption.
+        destruct (Nat.eqb j i) eqn:Eji.
+        + unfold rel, is_fork. cbn [c_forks].
+          destruct (existsb (N.eqb (r_addr r)) forks);
+            cbn [set_dd set_fork stamp t_set t_dd t_fork_dd t_sc t_stack s_set s_dd s_fork s_stk];
+            unfold tget in *; rewrite ?E1, ?E2, ?E3; repeat split; auto.
+        + unfold g1, consume. cbn [g_tasks]. rewrite nth_tupd by assumption. rewrite Eji. apply Hall. }
+    split.
+    { rewrite nth_supd by assumption. rewrite Nat.eqb_refl. unfold wfrem. cbn [s_set s_stk].
+      cbn [wf_stream] in Hwf1. rewrite Hty in Hwf1. exists (r_time r). split.
+      - cbn [length]. replace (N.of_nat (Datatypes.S (length (s_stk ss)))) with (N.of_nat (length (s_stk ss)) + 1) by lia. lia.
+      - constructor; [lia|]. eapply Forall_impl; [|exact Hle]. cbn. intros; lia. }
+    split; [apply length_supd|].
+    intros j Hj. rewrite nth_supd by assumption. apply Nat.eqb_neq in Hj. rewrite Hj. reflexivity.
+  - (* EXIT *)
+    cbn [wf_stream] in Hwf1. rewrite Hty in Hwf1.
+    destruct (s_stk ss) as [|t0 stk'] eqn:Hstk; [cbn [length] in Hwf1; lia|].
+    destruct (exit_rel (s_inherit tasks S i) _ _ r t0 stk' (Hall i) Hty Hstk) as (E1 & E2 & E3 & E4 & E5 & E6).
+    fold ss in E2, E3. rewrite <- Hts0 in E1, E2, E3, E4, E5, E6.
+    inversion Hle as [|? ? Ht0 Hle']; subst.
+    eexists. eexists. split; [reflexivity|].
+    cbn [fst snd]. split.
+    { rewrite events_warn_app by apply warn_of_warn. unfold events_of_line, mk.
+      cbn [l_kind l_task l_indent l_name l_time l_dur stamp set_dd t_dd t_ts t_stack t_sc].
+      rewrite E6, E2. rewrite sub64_exact by (unfold BOUND, W64 in *; lia). reflexivity. }
+    split.
+    { split.
+      - unfold tset. cbn [g_tasks]. rewrite length_tupd, length_supd. unfold g1, consume. cbn [g_tasks].
+        rewrite length_tupd. exact Hlen.
+      - intros j. unfold tget, tset. cbn [g_tasks].
+        assert (Hg1 : (i < length (g_tasks g1))%nat) by (unfold g1, consume; cbn [g_tasks]; rewrite length_tupd; lia).
+        rewrite nth_tupd by assumption. rewrite nth_supd by assumption.
+        destruct (Nat.eqb j i) eqn:Eji.
+        + unfold rel. cbn [set_dd stamp t_set t_dd t_fork_dd t_sc t_stack s_set s_dd s_fork s_stk].
+          unfold tget in *. rewrite ?E1, ?E2, ?E3. repeat split; auto.
+        + unfold g1, consume. cbn [g_tasks]. rewrite nth_tupd by assumption. rewrite Eji. apply Hall. }
+    split.
+    { rewrite nth_supd by assumption. rewrite Nat.eqb_refl. unfold wfrem. cbn [s_set s_stk].
+      exists (r_time r). split.
+      - cbn [length] in Hwf1. replace (N.of_nat (Datatypes.S (length stk')) - 1) with (N.of_nat (length stk')) in Hwf1 by lia. lia.
+      - eapply Forall_impl; [|exact Hle']. cbn. intros; lia. }
+    split; [apply length_supd|].
+    intros j Hj. rewrite nth_supd by assumption. apply Nat.eqb_neq in Hj. rewrite Hj. reflexivity.
+Qed.
+
+Lemma proj_cons_same i r tl : proj i ((i, r) :: tl) = r :: proj i tl.
+Proof. unfold proj. cbn [filter fst]. rewrite Nat.eqb_refl. reflexivity. Qed.
+Lemma proj_cons_other i j r tl : j <> i -> proj j ((i, r) :: tl) = proj j tl.
+Proof. intros H. unfold proj. cbn [filter fst]. apply Nat.eqb_neq in H. rewrite Nat.eqb_sym, H. reflexivity. Qed.
+
+Lemma events_of_app a b : events_of (a ++ b) = events_of a ++ events_of b.
+Proof. unfold events_of. apply flat_map_app. Qed.
+
+(* the whole run without folding *)
+Lemma run_refines forks tasks : forall l g S,
+  Rel g S -> Forall (fun p => (fst p < length S)%nat) l ->
+  (forall i, wfrem (nth i S sstate0) (proj i l)) ->
+  events_of (fst (run (mkcfg false forks) tasks l g)) = srun forks tasks l S.
+Proof.
+  induction l as [|[i r] tl IH]; intros g S HR Hb Hwf; [reflexivity|].
+  rewrite run_nofold_cons by reflexivity.
+  inversion Hb as [|? ? Hi Hb']; subst. cbn [fst] in Hi.
+  pose proof (Hwf i) as Hwi. rewrite proj_cons_same in Hwi.
+  destruct (step_refines forks tasks g S i r (proj i tl) tl HR Hi Hwi) as (ev & S' & E1 & E2 & HR' & Hw' & HL & Hoth).
+  destruct (step (mkcfg false forks) tasks g i r) as [ls g'] eqn:Es. cbn [fst snd] in *.
+  specialize (IH g' S' HR').
+  destruct (run (mkcfg false forks) tasks tl g') as [out g''] eqn:Er. cbn [fst] in *.
+  rewrite events_of_app, E2, E1. cbn [app]. f_equal. apply IH.
+  - rewrite HL. exact Hb'.
+  - intros j. destruct (Nat.eq_dec j i) as [->|Hne]; [exact Hw'|].
+    rewrite (Hoth j Hne). specialize (Hwf j). rewrite proj_cons_other in Hwf by assumption. exact Hwf.
+Qed.
+
+Lemma mask_queues_mask sel : forall tasks k, mask_queues sel tasks k = mask (selected sel) (map k_recs tasks) k.
+Proof. induction tasks as [|t rest IH]; intros k; cbn; [reflexivity|]. rewrite IH. reflexivity. Qed.
+
+Lemma nth_const {A B} (l : list A) (x : B) i : nth i (map (fun _ => x) l) x = x.
+Proof. revert i. induction l as [|h t IH]; intros [|i]; cbn; auto. Qed.
+
+Lemma wf_task_wfrem t : wf_task t = true -> wfrem sstate0 (k_recs t).
+Proof. unfold wf_task, wfrem. cbn [s_set sstate0]. destruct (k_recs t); auto. Qed.
+
+Definition S0 (tasks : list task) : list sstate := map (fun _ => sstate0) tasks.
+
+Lemma Rel_init sel tasks : Rel (init_g sel tasks) (S0 tasks).
+Proof.
+  split.
+  - unfold init_g, S0. cbn [g_tasks]. rewrite !map_length. reflexivity.
+  - intros i. unfold tget, init_g, S0. cbn [g_tasks]. rewrite !nth_const. apply rel0.
+Qed.
+
+(* C06, refinement: what `replay --no-merge [--tid ...]` prints is the reference semantics of
+   the merged (selected) records, whenever every task's stream is well-formed *)
+Theorem replay_refines_spec forks sel tasks : forallb wf_task tasks = true ->
+  events_of (fst (replay_raw (mkcfg false forks) sel tasks)) =
+  srun forks tasks (merge (mask_queues sel tasks 0)) (S0 tasks).
+Proof.
+  intros Hwf. unfold replay_raw. apply run_refines.
+  - apply Rel_init.
+  - pose proof (merge_tags_valid (mask_queues sel tasks 0)) as H.
+    rewrite mask_queues_mask, length_mask, map_length in H. unfold S0. rewrite map_length.
+    rewrite mask_queues_mask. exact H.
+  - intros i. rewrite merge_preserves_task_order. unfold S0. rewrite nth_const.
+    rewrite mask_queues_mask, nth_mask. cbn [Nat.add].
+    destruct (selected sel i); [|exact I].
+    destruct (Nat.lt_ge_cases i (length tasks)) as [Hlt|Hge].
+    + rewrite (nth_indep _ [] (k_recs (mktask None []))) by (rewrite map_length; exact Hlt).
+      rewrite map_nth. apply wf_task_wfrem.
+      rewrite forallb_forall in Hwf. apply Hwf. apply nth_In. exact Hlt.
+    + rewrite nth_overflow by (rewrite map_length; exact Hge). exact I.
+Qed.
